@@ -22,7 +22,7 @@ func init() {
 				n = 12000
 			}
 			return fw.Meta{N: n, Level: "exploration", Chunk: 5, CaseTimeoutS: 240, MinNT: 100,
-				Rule:        "one case = one seeded single-client program of 60..400 steps from {Put, Delete, Get, read-all, force-rotation, wait-flush-idle, one compaction cycle, Close+re-Open with a NEW option set} over 3..12 valid keys with unique values of 1..600 bytes; options per session from memstore {0,30,64,256,4096,1GiB} x file threshold {0,1,2,5} x max size {1,200,700,5GiB} x ratio {0,0.2,0.5,1} x read/write buffers {16,64,4096,4MiB} x WAL mode {sync, async (1 in 5)}. Even cases = driven schedule (compactor disabled, cycles placed by the program through the tag-guarded helpers), odd cases = live schedule (ticker 1..5 ms, size-triggered rotations). A third of the sessions is overwrite-heavy with tiny values so that the logged volume outgrows the memstore a hundredfold. Every mutation is read back, every rotation/compaction/reopen is followed by a read of all keys, compared with a Go map. A dead child (log.Panicf in flusher/compactor) is a violation. Non-trivial: >=1 flush, >=1 compaction that merged >=2 tables and >=1 reopen; distinct by program hash One case per thousand (index 6 mod 1000) is a bulk session: every option at its default, 150 MiB of incompressible 1 MiB values over 8 keys in ONE memstore generation, small last values and a delete, then two further clean sessions that only read.",
+				Rule:        "one case = one seeded single-client program of 60..400 steps from {Put, Delete, Get, read-all, force-rotation, wait-flush-idle, one compaction cycle, Close+re-Open with a NEW option set} over 3..12 valid keys with unique values of 1..600 bytes; options per session from memstore {0,30,64,256,4096,1GiB} x file threshold {0,1,2,5} x max size {1,200,700,5GiB} x ratio {0,0.2,0.5,1} x read/write buffers {16,64,4096,4MiB} x WAL mode {sync, async (1 in 5)}. Even cases = driven schedule (compactor disabled, cycles placed by the program through the tag-guarded helpers), odd cases = live schedule (ticker 1..5 ms, size-triggered rotations). A third of the sessions is overwrite-heavy with tiny values so that the logged volume outgrows the memstore a hundredfold. Every mutation is read back, every rotation/compaction/reopen is followed by a read of all keys, compared with a Go map. A dead child (log.Panicf in flusher/compactor) is a violation. Non-trivial: >=1 flush, >=1 compaction that merged >=2 tables and >=1 reopen; distinct by program hash One case per thousand (index 6 mod 1000) is a bulk session: every option at its default, 150 MiB of incompressible 1 MiB values over 8 keys in ONE memstore generation, small last values and a delete, then two further clean sessions that only read. A third of the keys are not valid UTF-8 (keys are bytes).",
 				MinObs:      map[string]int64{"bulk_sessions_bytes_logged_in_one_memstore_generation": 140000000, "reads_compared": 50000, "flushes": 500, "compactions_reflected": 100, "reopens": 300, "rotations_forced": 300, "sessions_overwrite_heavy": 30, "delete_then_compaction_excluding_oldest": 5},
 				Assumptions: []string{"only valid (non-empty) keys and values, as the statement requires", "live-mode schedules are whatever the Go scheduler and the 1..5 ms ticker produce"},
 			}
